@@ -609,15 +609,23 @@ class World:
                                  writer, tree.shape(), "-", fault)
                     return None
                 else:
-                    self.violate(idx, "extra_file", {"changed": changed}, writer, tree.shape(), "-", fault)
-                    return None
+                    # several files changed and the name is not known in advance (timestamped write):
+                    # the written file is the one that reads back as the new content
+                    cands = [p for p in changed if p not in self.files or pre.get(p) is None]
+                    name = (cands or changed)[-1]
             if name not in changed:
                 # not a verdict by itself (skipping an identical re-write would be legal): the read-back
                 # below decides whether the acknowledged content is really there
                 self.probe("acknowledged_write_left_file_untouched")
             for other in changed:
                 if other != name:
-                    self.violate(idx, "extra_file", {"file": other}, writer, tree.shape(), "-", fault)
+                    # another file changed too.  An untracked one (a temp file, say) is none of this
+                    # property's business; a tracked one must still read back as what was written to it
+                    if other in self.files and other in fs.files:
+                        self.probe("write_touched_another_tracked_file")
+                        self.verify_file(idx, other, writer=self.files[other].alts[-1].writer, fault=fault)
+                    else:
+                        self.probe("untracked_file_created_by_write")
             if name in self.files:
                 self.probe("overwrite_of_existing_file")
                 if self.files[name].alts[-1].writer != writer:
